@@ -41,7 +41,7 @@ func main() {
 		os.Exit(2)
 	}
 	if c.external != nil {
-		os.MkdirAll("/verif/replays", 0o755)
+		os.MkdirAll(filepath.Join(run.VerifDir, "replays"), 0o755)
 		os.Exit(c.external(os.Args[2:]))
 	}
 	if os.Args[2] == "--replay" {
